@@ -28,7 +28,7 @@ def parse_simple_pauli(str0, tag_circuit=True):
     else: #X0Y2X3X4
         tmp0 = re.match('([XYZI][0-9]+)+', str0)
         assert (tmp0 is not None) and len(str0)==tmp0.span(0)[1]
-        tmp0 = [(x[0],int(x[1:])) for x in re.findall('[XYZI][0-9]+', str0)]
+        tmp0 = [(x[0],int(x[1:])) for x in re.findall('[XYZI][0-9]+', str0) if x[0]!='I'] #identity factors are dropped as in the XIYXX syntax
     if tag_circuit:
         ret = numqi.sim.Circuit()
         for x,y in tmp0:
